@@ -186,17 +186,25 @@ def run(pid, tier, seed):
                 {"what": name, "type": sexp.dumps(raw), "lean": g, "python": expect})
 
     reqs, meta = [], []
+    hung = set()
     for raw, py, objs, origin in inputs:
         chk.count("input." + origin)
         names = BASE + ["default"] + (pair_names if not quick else chk.rng.sample(pair_names, 5))
         for name in names:
+            if name in hung:
+                continue
             rw, model_chain = rws[name]
             chk.evaluations += 1
             case = {"rewriter": name, "type": sexp.dumps(raw)}
             try:
-                out = rw.rewrite(py)
+                with framework.time_limit(20):
+                    out = rw.rewrite(py)
                 out_raw = tyconv.ty_to_tree(out, tbl)
                 out_c = tyconv.canon(out_raw)
+            except framework.DidNotTerminate as e:
+                chk.fail("no-crash", dict(case, error=repr(e), detail="rewriting does not complete (no result after 20 s)"))
+                hung.add(name)          # one failing input per rewriter is enough; the check itself must complete
+                continue
             except tyconv.Unrepresentable as e:
                 chk.count("unrepresentable_output")
                 continue
@@ -257,8 +265,12 @@ def run(pid, tier, seed):
                 n += 1
                 case = {"rewriter": name, "type": sexp.dumps(raw), "found_by": "intensified-search"}
                 try:
-                    out = rw.rewrite(py)
+                    with framework.time_limit(20):
+                        out = rw.rewrite(py)
                     out_c = tyconv.canon(tyconv.ty_to_tree(out, tbl))
+                except framework.DidNotTerminate as e:
+                    chk.fail("no-crash", dict(case, error=repr(e), detail="rewriting does not complete"))
+                    continue
                 except tyconv.Unrepresentable:
                     continue
                 except Exception as e:
